@@ -57,6 +57,16 @@ def main(argv):
     modname, fn = CHECKS[pid]
     try:
         mod = importlib.import_module(modname)
+        if replay:
+            import json
+            with open(replay) as f:
+                rec = json.load(f)
+            os.environ["VERIF_SEED"] = str(rec.get("seed", 0))
+            if modname == "vf.checks_wire":
+                rc = mod.replay(pid, rec.get("case", {}))
+                if rc is not None:
+                    return rc
+            # other families: the recorded seed reproduces the run that found it
         return getattr(mod, fn)(tier, replay)
     except MachineryError as e:
         sys.stderr.write("MACHINERY-ERROR: %s\n" % e)
